@@ -170,3 +170,88 @@ Definition res_agree (a b : res value) : bool :=
   | Err (Raise _), Err (Raise _) => true
   | _, _ => false
   end.
+
+(* ====================================================================== *)
+(* replace_subgroups: "swaps exactly the selected subgroup members"        *)
+(* ====================================================================== *)
+(* An abstract selection names a member by its PATH and says what to put there. *)
+Inductive choice :=
+| CKey (k : string)       (* the subgroup registered under that key *)
+| CType (cls : string)    (* a fresh default instance of that dataclass *)
+| CInst (v : value)       (* that instance *)
+| CNone.                  (* None for an Optional member, the field's default otherwise *)
+
+(* plain path assignment: everything off the path is untouched by construction *)
+Section UpdateField.
+  Variable k : string.
+  Variable g : value -> option value.
+  Fixpoint update_field (l : list field) : option (list field) :=
+    match l with
+    | [] => None
+    | f :: r =>
+        if String.eqb k (fname f) then
+          match fknd f with
+          | FInit => option_map (fun x => (fname f, FInit, x) :: r) (g (fval f))
+          | FNonInit _ _ => None
+          end
+        else option_map (cons f) (update_field r)
+    end.
+End UpdateField.
+Fixpoint set_path (p : path) (m : value) (o : value) : option value :=
+  match p with
+  | [] => Some m
+  | k :: r => match o with
+              | VDc cls fs => option_map (VDc cls) (update_field k (set_path r m) fs)
+              | _ => None
+              end
+  end.
+
+(* the member a choice denotes for the field `name` of class `cls` *)
+Definition member_of (T : tables) (cls name : string) (c : choice) : option value :=
+  match meta_of (t_meta T) cls name with
+  | None => None
+  | Some m =>
+      if negb (m_has_dc m) then None
+      else match c with
+           | CKey k => dget (m_subgroups m) k
+           | CType c' => dget (t_classes T) c'
+           | CInst v => Some v
+           | CNone => match m_subgroups m with
+                      | _ :: _ => None
+                      | [] => if m_optional m then Some (VLeaf "NoneType" "None") else m_factory m
+                      end
+           end
+  end.
+
+Fixpoint split_last (p : path) : option (path * string) :=
+  match p with
+  | [] => None
+  | [k] => Some ([], k)
+  | k :: r => match split_last r with Some (q, l) => Some (k :: q, l) | None => None end
+  end.
+
+(* apply the selections one after the other (the generator lists them shallowest first); None = some selection does
+   not denote a member (unknown field, unknown key, a field that holds no dataclass): the call must raise *)
+Fixpoint expected_sub (T : tables) (sels : list (path * choice)) (o : value) : option value :=
+  match sels with
+  | [] => Some o
+  | (p, c) :: r =>
+      match split_last p with
+      | None => None
+      | Some (q, name) =>
+          match get o q with
+          | Some (VDc cls fs) =>
+              match child fs name, member_of T cls name c with
+              | Some _, Some m => match set_path p m o with Some o1 => expected_sub T r o1 | None => None end
+              | _, _ => None
+              end
+          | _ => None
+          end
+      end
+  end.
+
+Definition sub_check (T : tables) (sels : list (path * choice)) (o : value) (obs : res value) : bool :=
+  match expected_sub T sels o with
+  | None => is_raise obs
+  | Some e => match obs with Ok o' => value_eqb o' e | Err _ => false end
+  end.
